@@ -123,7 +123,39 @@ def run(sid, checks):
     return 0
 
 
+def run_all():
+    """Every seeded change against the check of its own property (plus checks already recorded for it)."""
+    for sid in sorted(os.listdir(SEEDED)):
+        mp = os.path.join(SEEDED, sid, "meta.json")
+        if not os.path.exists(mp):
+            continue
+        meta = json.load(open(mp))
+        checks = sorted(set([meta["breaks_property"]] + list(meta.get("checks", {}))))
+        rc = run(sid, checks)
+        if rc:
+            return rc
+    return 0
+
+
+def table():
+    print("| id | property | change | needs to manifest | detected by (clauses) | strengthening the check needed |")
+    print("|----|----------|--------|-------------------|-----------------------|-------------------------------|")
+    for sid in sorted(os.listdir(SEEDED)):
+        mp = os.path.join(SEEDED, sid, "meta.json")
+        if not os.path.exists(mp):
+            continue
+        m = json.load(open(mp))
+        det = "; ".join(f"{c}: {', '.join(v['clauses'])}" if v.get("detected") else f"{c}: MISSED" for c, v in sorted(m.get("checks", {}).items()))
+        needs = m.get("needs_to_manifest", "").replace(" (details: NOTES.md)", "")
+        print(f"| {sid} | {m['breaks_property']} | {m.get('summary', '')} | {needs} | {det} | {m.get('strengthening_needed', '') or '-'} |")
+    return 0
+
+
 if __name__ == "__main__":
+    if sys.argv[1] == "all":
+        sys.exit(run_all())
+    if sys.argv[1] == "table":
+        sys.exit(table())
     if sys.argv[1] == "confirm":
         sys.exit(confirm(sys.argv[2], sys.argv[3], sys.argv[4]))
     if sys.argv[1] == "run":
